@@ -68,6 +68,10 @@ func NewStrMaterial(r *vh.Rand) *StrMaterial {
 	}
 	for _, nm := range g.Names {
 		g.Pats = append(g.Pats, nm)
+		// a wildcard exactly one label above an exact name: exact must win, in any letter case
+		if _, parent, ok := strings.Cut(nm, "."); ok && strings.Contains(parent, ".") && r.Chance(1, 2) {
+			g.Pats = append(g.Pats, "*."+parent)
+		}
 		if r.Chance(2, 3) {
 			g.Pats = append(g.Pats, "*."+nm)
 		}
@@ -171,6 +175,20 @@ func (g *Gen) path(peer int) []int {
 		return p
 	case 2:
 		return []int{0}
+	case 3, 4: // the head of the path is NOT the delivering peer (legacy encrypted
+		// path forwarded unchanged, or a neighbour that relays without prepending itself)
+		other := 1 + g.R.Intn(7)
+		if other == peer {
+			other = 1 + peer%7
+		}
+		p := []int{other}
+		if g.R.Chance(1, 2) {
+			p = append(p, peer)
+		}
+		if g.R.Chance(1, 2) {
+			p = append(p, 1+g.R.Intn(7))
+		}
+		return p
 	default:
 		p := []int{peer}
 		for k := g.R.Intn(3); k > 0; k-- {
@@ -348,7 +366,7 @@ func (g *Gen) Lookups(k int) []Op {
 				out = append(out, Op{Code: OpLookupB, Idx: r.Intn(len(g.Nets)), K: r.Intn(12)})
 			}
 		case "domain":
-			out = append(out, Op{Code: OpDLookupD, Idx: r.Intn(len(g.Strs)), K: r.Intn(8)})
+			out = append(out, Op{Code: OpDLookupD, Idx: r.Intn(len(g.Strs)), K: r.Intn(9)})
 		case "fwd":
 			out = append(out, Op{Code: OpFLookup, Name: g.Keys[r.Intn(len(g.Keys))]})
 		default:
